@@ -38,8 +38,29 @@ def case_spec(case):
     return spec_from_forest(case["f"], case["pal"], case["pol"], case["srs"])
 
 
+def spread_spec(depth, heavy, micro, pol=1):
+    """an amps-level branch next to a deep micro-amp regulator chain: every row must be converged, not only the big ones."""
+    comps = [dict(n="S", k="Source", a=dict(vo=48.0 * pol, rs=0.01), p=[], g="", r="")]
+    comps.append(dict(n="H", k="ILoad", a=dict(ii=heavy), p=["S"], g="", r=""))
+    prev, v = "S", 24.0
+    for j in range(depth):
+        if j % 2 == 0:
+            comps.append(dict(n="B%d" % j, k="Converter", a=dict(vo=v * pol, eff=0.8, iq=2e-6), p=[prev], g="", r=""))
+        else:
+            comps.append(dict(n="B%d" % j, k="LinReg", a=dict(vo=v * pol, vdrop=0.1, ig=1e-6), p=[prev], g="", r=""))
+        prev, v = "B%d" % j, v * 0.6
+    comps.append(dict(n="U", k="ILoad", a=dict(ii=micro), p=[prev], g="", r=""))
+    return dict(name="spread", comps=comps, phases=None)
+
+
 def check_case(case, want=("C01",)):
     res = Res()
+    if case["fam"] == "spread":
+        spec = spread_spec(case["depth"], case["heavy"], case["micro"], case["pol"])
+        before = res.stats["nontrivial_rows"]
+        phys.solve_and_check(res, spec, want)
+        res.nontrivial = 1
+        return res
     if case["fam"] == "mux":  # multi-input PMux: Vin from the selected input, its current charged to that input only
         from ..muxsys import mux_spec
         spec = mux_spec([tuple(x) for x in case["inputs"]], case["pal"], case["rs_list"], below="deep", pol=case["pol"])
@@ -121,6 +142,11 @@ def gen_cases(tier, want_mirror=True):
             for inputs in itertools.product(INPUT_OPTS if (k == 2 or tier != "quick") else INPUT_OPTS[::2], repeat=k):
                 for pol in (1, -1):
                     yield dict(fam="mux", inputs=[list(x) for x in inputs], pal=pal, rs_list=(k == 3), pol=pol, srs=0.0, n=k)
+        for depth in (2, 3, 4, 5, 6):
+            for heavy in (0.5, 10.0, 20.0):
+                for micro in (2e-6, 2e-5, 1e-3):
+                    for pol in (1, -1):
+                        yield dict(fam="spread", depth=depth, heavy=heavy, micro=micro, pol=pol, pal=pal, srs=0.0, n=depth + 2)
         # two sources
         T2 = mid
         for n1 in (1, 2):
@@ -148,7 +174,7 @@ def main(tier):
     return run.finish(
         rule="E1: every canonical tree (children as multisets) with n non-source nodes over the letter alphabets "
              "(full: 20 interior + 6 leaf letters, mid: 10+3, deep: 4+2; at most one PMux), x polarity x source rs in {0,0.37}, "
-             "plus two-source forests and 2-/3-input PMux systems (every input option of C05, both polarities); palette(s) by VERIF_SEED (quick) or all three (thorough). A case is non-trivial when some row "
+             "plus amps-level loads beside micro-amp regulator chains of depth 2..6, two-source forests and 2-/3-input PMux systems (every input option of C05, both polarities); palette(s) by VERIF_SEED (quick) or all three (thorough). A case is non-trivial when some row "
              "took a non-default law branch (off-grid table lookup, clamp, drop-out, no-load, rectified negative input, fan-out>=2). "
              "states = distinct systems built on the real code, transitions = public API calls (add_source/add_comp/solve) executed, "
              "traces_validated = solved tables whose every row was compared with the reference law.",
